@@ -40,8 +40,8 @@ def main():
             print("no concrete input recorded; verifier output follows")
             print(json.dumps(doc["verifier_output"], indent=1))
             return 1
-        name = doc["obligation"].split("/", 1)[1].rsplit("@", 1)[0]
-        v = runner.native_replay(doc["harness"], doc["shape"], cex["env"], name, doc["property"], 1e-8)
+        name = doc.get("name") or doc["obligation"].split("/", 1)[1].rsplit("@", 1)[0]
+        v = runner.native_replay(doc["harness"], doc["shape"], cex["env"], name, doc["property"], 1e-8, doc.get("sample_seed"))
         print(json.dumps(v, indent=1))
         return 1 if v.get("verdict") == "native-disagrees-with-spec" else 0
     if args.task:
